@@ -277,9 +277,9 @@ class NestedExtensionArray(ExtensionArray):
             key = unpack_tuple_and_ellipses(key)
 
         if not isinstance(key, np.ndarray):
-            np_mask = np.zeros(len(self), dtype=np.bool_)
-            np_mask[key] = True
-            key = np_mask
+            # Integer positions in the order of the key, so a slice with a negative step
+            # assigns the values in reverse order, as for a list
+            key = np.atleast_1d(np.arange(len(self))[key])
 
         if len(key) == 0:
             return
